@@ -99,7 +99,7 @@ Proof. vm_compute. reflexivity. Qed.
 Theorem sid_roundtrip rnd p t : p <> [] -> sid_plain rnd p = Ok t -> sid_path t = Ok p.
 Proof.
   unfold sid_plain, sid_path. intros Hne H. destruct (branch_key p) as [k| |] eqn:Ek; cbn [bind] in H; try discriminate.
-  injection H as Ht. subst t. change (pack1 rnd ++ pack1 k ++ []) with (lv_pack [rnd; k]). rewrite lv_roundtrip. cbn [bind]. f_equal. now apply branch_key_roundtrip.
+  injection H as Ht. subst t. change (pack1 rnd ++ pack1 k ++ [48; colon]) with (lv_pack [rnd; k; []]). rewrite lv_roundtrip. cbn [bind]. f_equal. now apply branch_key_roundtrip.
 Qed.
 
 Theorem sid_injective r1 r2 p q t :
@@ -107,3 +107,42 @@ Theorem sid_injective r1 r2 p q t :
 Proof.
   intros Hp Hq H1 H2. apply sid_roundtrip in H1; auto. apply sid_roundtrip in H2; auto. congruence.
 Qed.
+
+(* ---- the framing of a branch identifier is immune to the encrypter's blank padding ---- *)
+Lemma rstrip_blanks_repeat n : rstrip_blanks (repeat blank n) = [].
+Proof. induction n as [|n IH]; cbn; [reflexivity|]. rewrite IH. reflexivity. Qed.
+Lemma rstrip_blanks_keep s c t : c <> blank -> rstrip_blanks t = [] -> rstrip_blanks (s ++ c :: t) = s ++ [c].
+Proof.
+  intros Hc Ht. induction s as [|x s IH]; cbn [app rstrip_blanks].
+  - rewrite Ht. destruct (N.eqb c blank) eqn:E; [apply N.eqb_eq in E; contradiction|reflexivity].
+  - rewrite IH. destruct s; reflexivity.
+Qed.
+Lemma sid_plain_ends_in_colon rnd p t : sid_plain rnd p = Ok t -> exists s, t = s ++ [colon].
+Proof.
+  unfold sid_plain. destruct (branch_key p) as [k| |]; cbn [bind]; try discriminate. intros H. injection H as Ht. subst t.
+  exists (pack1 rnd ++ pack1 k ++ [48]). rewrite <- !app_assoc. reflexivity.
+Qed.
+(* whatever number of blanks the encrypter appends, what it hands back after stripping is the plaintext itself *)
+Theorem sid_through_encrypter rnd p t n : sid_plain rnd p = Ok t -> through_encrypter n t = t.
+Proof.
+  intros H. destruct (sid_plain_ends_in_colon _ _ _ H) as [s ->]. unfold through_encrypter.
+  rewrite <- app_assoc. cbn [app]. apply rstrip_blanks_keep; [discriminate|apply rstrip_blanks_repeat].
+Qed.
+(* ... so the identifier resolves to exactly its path: also when the last identifier of the path ends in blanks,
+   consists of blanks only, or the key is empty *)
+Theorem sid_padding_immune rnd p t n : p <> [] -> sid_plain rnd p = Ok t -> sid_path (through_encrypter n t) = Ok p.
+Proof. intros N H. rewrite (sid_through_encrypter _ _ _ n H). eapply sid_roundtrip; eauto. Qed.
+(* identifiers minted with the framing before the repair still decode *)
+Theorem sid_legacy_decodes rnd p t : p <> [] -> sid_plain_legacy rnd p = Ok t -> sid_path t = Ok p.
+Proof.
+  unfold sid_plain_legacy, sid_path. intros Hne H. destruct (branch_key p) as [k| |] eqn:Ek; cbn [bind] in H; try discriminate.
+  injection H as Ht. subst t. change (pack1 rnd ++ pack1 k ++ []) with (lv_pack [rnd; k]). rewrite lv_roundtrip. cbn [bind]. f_equal. now apply branch_key_roundtrip.
+Qed.
+(* ... but that framing was not immune: the identifier of user "trail " came back as the identifier of user "trail" *)
+Example sid_legacy_refuted :
+  sid_plain_legacy [114] [[116;114;97;105;108;32]] = Ok [49;58;114;54;58;116;114;97;105;108;32]
+  /\ sid_path (through_encrypter 5 [49;58;114;54;58;116;114;97;105;108;32]) = Ok [[116;114;97;105;108]].
+Proof. split; vm_compute; reflexivity. Qed.
+Example sid_blanks_only :
+  exists t, sid_plain [114] [[32;32]; [32]] = Ok t /\ sid_path (through_encrypter 7 t) = Ok [[32;32]; [32]].
+Proof. eexists. split; vm_compute; reflexivity. Qed.
